@@ -78,6 +78,12 @@ impl Prop for C03 {
         let mut eff = case.clone();
         if case.sel & 1 == 0 {
             eff.faults.clear();
+        } else if case.sel & 2 == 0 {
+            // with tiny chunks nearly every worker write is the tail of a rotation, and a lost
+            // tail ends in the known rotation-gap class; half of the fault cases get roomy chunks
+            // so that the failed write is one that carries flushed records
+            eff.cfg.max_records = if case.sel & 4 == 0 { Some(20) } else { None };
+            eff.cfg.max_size = if case.sel & 8 == 0 { None } else { Some(5000) };
         }
         let case = &eff;
         let rec = crash::record(case, false, false)?;
